@@ -1268,12 +1268,11 @@ class sptensor:
 
         # Find which values in the mask match nonzeros in X
         valid, idx = tt_ismember_rows(wsubs, self.subs)
-        matching_indices = idx[valid]
 
-        # Assemble return array
-        nvals = wsubs.shape[0]
-        vals = np.zeros((nvals, 1))
-        vals[matching_indices] = self.vals[matching_indices]
+        # Assemble return array: one value per nonzero of W, zero where X has none
+        vals = np.zeros((W.nnz, 1))
+        if np.sum(valid) > 0:
+            vals[valid] = self.vals[idx[valid]]
         return vals
 
     def mttkrp(
